@@ -345,11 +345,11 @@ func init() {
 		panicRules(grpMutators[:3]))
 
 	register("C12",
-		"Structural clauses of NewMap: EFFECT.recv (no write instruction reachable from NewMap can target memory reachable from the receiver, for every list of pairs), ERR.path, PANIC.* on the projection code. Not decided: exact content of the projection. ERR.path of j2x.JsonNewJson. ARGS.validated (no success return of NewMap is decided by a test of the receiver ahead of the pair loop: pairs are validated whatever the receiver holds)."+levelNote,
+		"Structural clauses of NewMap: EFFECT.recv (no write instruction reachable from NewMap can target memory reachable from the receiver, for every list of pairs), ERR.path, PANIC.* on the projection code. Not decided: exact content of the projection. ERR.path of j2x.JsonNewJson. ARGS.validated (no success return of NewMap is decided by a test of the receiver ahead of the pair loop: pairs are validated whatever the receiver holds). WALK.progress clause for addNewVal (no loop over the path nested in the descent restarts at the head of the path)."+levelNote,
 		nil,
 		func(p *Prog, r *Report) { ruleEffectRecv(p, r, p.named("mxj.Map.NewMap"), "EFFECT.recv") },
 		func(p *Prog, r *Report) { ruleErr(p, r, []string{"mxj.Map.NewMap", "j2x.JsonNewJson"}, "NewMap") },
-		ruleNewMapArgs, ruleCopyNonNil, ruleNewMapEarly,
+		ruleNewMapArgs, ruleCopyNonNil, ruleNewMapEarly, ruleAddNewValLinear,
 		panicRules(grpProject))
 
 	register("C13",
